@@ -40,4 +40,22 @@ PROPS["C16"] = dict(
     assumptions=["locations have at most 2 components with region, zone < 16", "keccak256 treated as an opaque function"],
 )
 
+def state_preamble(facts, impl):
+    return "cfg suicideRestoresSize %d\n" % (1 if facts.get("suicide_restores_size") else 0)
+
+PROPS["C12"] = dict(
+    lean_modules=["QuaiVerif.Props.C12"],
+    areas=[dict(name="state", n_quick=3000, n_thorough=40000, seeds_thorough=3, n_search=2500, preamble=state_preamble)],
+    facts=["suicide_restores_size", "journal_reverts"],
+    rule="a case is a committed pre-state (accounts with balance/nonce/code/storage, so size counters > 0) plus 5-60 journalled mutator calls "
+         "with nested Snapshot/RevertToSnapshot frames (depth <= 6) on the real StateDB; after each revert the full dump and the IntermediateRoot of a copy "
+         "are compared with those at frame entry and with the model; non-trivial = at least one revert and >= 4 mutator kinds",
+    level_text="'A reverting frame leaves the state equal to the state at entry' is a Lean theorem over the journal model for every frame body with nested "
+               "frames at any depth (mutual structural induction; one lemma per mutator/journal-entry pair), plus sibling-frame preservation; the journal "
+               "table and the suicide/size fact are regenerated from journal.go/statedb.go; the model is run against the real StateDB on random nested programs.",
+    level_note="Trusted: Lean kernel; extractor's reading of journal.go; harness generator. EVM-level side state (ETX cache, coinbase-lockup deletions) is "
+               "covered by the evm area of C05; size-counter updates at commit (updateTrie) are observed, not modelled: the pre-state is read from the real StateDB.",
+    assumptions=["CreateAccount only on addresses evm.create accepts (nonce 0, no code)", "SubBalance/SubRefund never exceed the current value (callers guarantee)"],
+)
+
 NOT_APPLICABLE = {}
